@@ -1,0 +1,25 @@
+// SPDX-FileCopyrightText: 2026 The Pion community <https://pion.ly>
+// SPDX-License-Identifier: MIT
+
+//go:build verif
+
+package util
+
+// Machine-checked contracts (comment-only; read by /verif/govc, never compiled into a normal build).
+//
+// 128-bit array, bit 0 is the most significant bit of Lo (property C14).
+//@ def bitOf(lo uint64, hi uint64, i uint32) bool := ite(i < 64, (lo >> (63 - i)) & 1 == 1, (hi >> (127 - i)) & 1 == 1)
+//@
+//@ func (*BitArray).SetBit
+//@   requires in_range: bitIndex < 128
+//@   modifies b.Lo, b.Hi
+//@   ensures set: forall k uint32 :: k < 128 ==> (bitOf(b.Lo, b.Hi, k) <==> (k == bitIndex || bitOf(old(b.Lo), old(b.Hi), k)))
+//@
+//@ func (*BitArray).GetBit
+//@   requires in_range: bitIndex < 128
+//@   modifies nothing
+//@   ensures get: result == ite(bitOf(b.Lo, b.Hi, bitIndex), uint8(1), uint8(0))
+//@
+//@ func (*BitArray).Reset
+//@   modifies b.Lo, b.Hi
+//@   ensures cleared: b.Lo == 0 && b.Hi == 0
